@@ -20,6 +20,10 @@ class RatFuncSegment:
     lower_limit: Optional[Limit]
     upper_limit: Optional[Limit]
 
+    #: type of the values the segment is applied to (the limits are
+    #: given in this type, `value_type` is the type of the result)
+    domain_type: Optional[DataType] = None
+
     @staticmethod
     def from_compu_scale(scale: CompuScale, value_type: DataType) -> "RatFuncSegment":
         coeffs = odxrequire(scale.compu_rational_coeffs,
@@ -37,7 +41,8 @@ class RatFuncSegment:
             denominator_coeffs=denominator_coeffs,
             lower_limit=lower_limit,
             upper_limit=upper_limit,
-            value_type=scale.range_type)
+            value_type=scale.range_type,
+            domain_type=scale.domain_type)
 
     def convert(self, value: AtomicOdxType) -> Union[float, int]:
         if not isinstance(value, (int, float)):
@@ -68,7 +73,7 @@ class RatFuncSegment:
     def applies(self, value: AtomicOdxType) -> bool:
         """Returns True iff the segment is applicable to a given internal value"""
         # Do type checks
-        expected_type = self.value_type.python_type
+        expected_type = (self.domain_type or self.value_type).python_type
         if issubclass(expected_type, float):
             if not isinstance(value, (int, float)):
                 return False
